@@ -153,6 +153,10 @@ func (c *Calcium) withNodesLocked(ctx context.Context, nodeFilter *types.NodeFil
 		return err
 	}
 
+	// take the locks in ascending key order, whatever order the nodes come in:
+	// nodes sorted by name can still belong to pods in descending order
+	sort.SliceStable(ns, func(i, j int) bool { return genKey(ns[i]) < genKey(ns[j]) })
+
 	var lock lock.DistributedLock
 	for _, n := range ns {
 		key := genKey(n)
